@@ -3,6 +3,7 @@ import random
 
 from vmon import canon
 from vmon import gens as G
+from vmon.gens import THOROUGH_SCALE as TS
 from vmon import oracles as O
 from vmon import search as S
 
@@ -149,6 +150,7 @@ def k_history(ctx, refs, k, steps, use_lookupdb=False):
         ctx.violation("DB:build:raised", "database construction raised", (sdb.describe(), ldb and ldb.describe()), None)
         return
     ctx.sample("history", {"refs": refs[:8], "k": k, "steps": steps[:4], "n_steps": len(steps)})
+    ctx.distinct("lookup_histories", [refs, k, steps])
     for si, st in enumerate(steps):
         q = st["q"]
         mode = st.get("mode", "lev")
@@ -252,7 +254,7 @@ def generate(tier, seed):
             yield "cross", {"refs": u, "queries": u, "k": k}, True
     pools = [G.universe("AC", 5), G.universe("ACD", 4), G.universe("ACDW", 3), G.universe("AC", 4) + G.hostile_strings(),
              G.NON_AMINO + G.universe("ab", 3)]
-    n_rand = 5000 if thorough else 300
+    n_rand = 5000 * TS if thorough else 300
     for i in range(n_rand):
         pool = pools[i % len(pools)]
         refs = G.small_multiset(rng, pool, 1, 40)
@@ -263,7 +265,7 @@ def generate(tier, seed):
                 queries[j] = refs[j]
         yield "cross", {"refs": refs, "queries": queries, "k": rng.choice([1, 1, 2, 2, 3, 4])}, i < 80
     # repertoires
-    n_rep = 300 if thorough else 25
+    n_rep = 300 * TS if thorough else 25
     for i in range(n_rep):
         rep = G.repertoire(rng, rng.randint(40, 160 if not thorough else 300))
         cut = rng.randint(5, len(rep) - 5)
@@ -271,7 +273,7 @@ def generate(tier, seed):
         yield "cross", {"refs": refs, "queries": queries, "k": rng.choice([1, 2, 2, 3])}, i < 6
     # LookupDB on its documented domain
     aa_pool = G.universe("ACD", 3) + G.universe("WY", 3)
-    n_l = 1500 if thorough else 80
+    n_l = 1500 * TS if thorough else 80
     for i in range(n_l):
         if i % 4 == 0:
             rep = G.repertoire(rng, rng.randint(10, 40), lo=2, hi=5)
@@ -287,7 +289,7 @@ def generate(tier, seed):
                         queries[j] = refs[j]
         yield "lookupdb", {"refs": refs, "queries": queries, "k": k}, i < 30
     # histories
-    n_h = 600 if thorough else 40
+    n_h = 600 * TS if thorough else 40
     for i in range(n_h):
         pool = [G.universe("AC", 5), G.universe("ACD", 3) + G.universe("WY", 3), G.universe("ACDW", 3)][i % 3]
         refs = G.small_multiset(rng, pool, 3, 40)
